@@ -39,6 +39,49 @@ def switch_cases(sw):
     return out
 
 
+def if_chain_cases(body, decl):
+    """`if (v == A) {...} else if (v == B) {...} [else {...}]` over the variable `decl` -> the same list switch_cases() gives
+    ([labels], stmts, line); an else without test is labelled 'default'"""
+    out = []
+
+    def test(cond):
+        c = A.strip(cond)
+        if c.get("k") != "BinaryOperator" or c.get("op") != "==":
+            return None
+        for e_, k_ in ((c["c"][0], c["c"][1]), (c["c"][1], c["c"][0])):
+            d_ = A.declref(e_)
+            kk = A.strip(k_)
+            if d_ is not None and d_.get("decl") == decl:
+                if kk.get("k") == "DeclRefExpr" and kk.get("dkind") == "EnumConstant":
+                    return kk["enumval"]
+                if kk.get("k") == "IntegerLiteral":
+                    return kk["value"]
+                if "const" in kk:
+                    return kk["const"]
+        return None
+
+    def stmts_of(s_):
+        return list(s_.get("c", [])) if s_.get("k") == "CompoundStmt" else [s_]
+
+    def chain(ifs):
+        v = test(ifs["cond"])
+        if v is None:
+            return False
+        out.append(([v], stmts_of(ifs["then"]), ifs["line"]))
+        el = ifs.get("else")
+        if el is None:
+            return True
+        if el.get("k") == "IfStmt":
+            return chain(el)
+        out.append((["default"], stmts_of(el), el["line"]))
+        return True
+    for st in (body.get("c", []) if body.get("k") == "CompoundStmt" else [body]):
+        if st.get("k") == "IfStmt" and test(st["cond"]) is not None:
+            if not chain(st):
+                return []
+    return out
+
+
 def flatten(stmts):
     """expand nested CompoundStmts"""
     out = []
@@ -121,13 +164,18 @@ def interp_weights(prog):
     fn = prog.fn("vfps::SourceMap::calcCoefficiants", nparams=3)
     ic, fpar, it = fn["params"]
     sws = [x for x in A.walk(fn["body"]) if x["k"] == "SwitchStmt"]
-    A.require(len(sws) == 1, "calcCoefficiants: expected exactly one switch")
-    sw = sws[0]
-    cond = A.declref(sw["cond"])
-    A.require(cond and cond["decl"] == it["decl"], "calcCoefficiants: switch is not over the order parameter")
+    A.require(len(sws) <= 1, "calcCoefficiants: expected at most one switch")
+    if sws:
+        sw = sws[0]
+        cond = A.declref(sw["cond"])
+        A.require(cond and cond["decl"] == it["decl"], "calcCoefficiants: switch is not over the order parameter")
+        groups = switch_cases(sw)
+    else:
+        groups = if_chain_cases(fn["body"], it["decl"])
+        A.require(groups, "calcCoefficiants: neither a switch nor an if-chain over the order parameter")
     out = {}
     f = sp.Symbol("f", real=True)
-    for labels, stmts, line in switch_cases(sw):
+    for labels, stmts, line in groups:
         tr = Translator()
         tr.bind(fpar["decl"], f)
         fold = Fold(tr)
